@@ -460,28 +460,26 @@ func genGated(c *Ctx, fn *ssa.Function, b *ssa.BasicBlock, chainUp []*ssa.Call, 
 
 // bumpsGen: fn increments the generation field unconditionally (itself, or through a helper it calls unconditionally).
 func bumpsGen(fn *ssa.Function, genF string, depth int) (ssa.Instruction, bool) {
-	var at ssa.Instruction
-	instrs(fn, func(b *ssa.BasicBlock, i int, in ssa.Instruction) {
-		if at != nil {
-			return
+	uncond := func(in ssa.Instruction) bool {
+		b := in.Block()
+		return b == in.Parent().Blocks[0] || len(guardsOf(b)) == 0
+	}
+	for _, d := range deepInstrs(fn, 2) {
+		if !isFieldIncDec(d.in, genF, +1) || !uncond(d.in) || !uncond(d.site) {
+			continue
 		}
-		uncond := b == fn.Blocks[0] || len(guardsOf(b)) == 0
-		if !uncond {
-			return
-		}
-		if isFieldIncDec(in, genF, +1) {
-			at = in
-			return
-		}
-		if call, ok := in.(*ssa.Call); ok && depth < 2 {
-			if cal := staticCallee(&call.Call); cal != nil && cal.Blocks != nil && rootFn(cal).Pkg == rootFn(fn).Pkg && cal != fn {
-				if _, ok := bumpsGen(cal, genF, depth+1); ok {
-					at = in
-				}
+		// every call on the way down is unconditional too
+		all := true
+		for _, call := range d.calls {
+			if !uncond(call) {
+				all = false
 			}
 		}
-	})
-	return at, at != nil
+		if all {
+			return d.site, true
+		}
+	}
+	return nil, false
 }
 
 func ruleTickGate(c *Ctx, r *R) {
@@ -539,13 +537,13 @@ func ruleTickGate(c *Ctx, r *R) {
 	_, okT := bumpsGen(stop, genF, 0)
 	r.ok(okT, "xtime.JitterTicker.Stop|bumps-gen", stop.Pos(), "Stop must bump gen unconditionally: timer.Stop() cannot cancel a callback that already fired and is waiting for the lock; the generation bump is the only thing that turns it into a no-op")
 	stops := false
-	instrs(stop, func(b *ssa.BasicBlock, i int, in ssa.Instruction) {
-		if call, ok := in.(*ssa.Call); ok {
-			if cal := call.Call.StaticCallee(); cal != nil && fname(cal) == "Stop" && cal.Signature.Recv() != nil && isNamedType(cal.Signature.Recv().Type(), "time", "Timer") {
+	for _, d := range deepInstrs(stop, 2) {
+		if call, ok := d.in.(*ssa.Call); ok {
+			if cal := call.Call.StaticCallee(); cal != nil && cal.Name() == "Stop" && cal.Signature.Recv() != nil && isNamedType(cal.Signature.Recv().Type(), "time", "Timer") {
 				stops = true
 			}
 		}
-	})
+	}
 	r.ok(stops, "xtime.JitterTicker.Stop|stops-timer", stop.Pos(), "Stop must stop the pending timer")
 	// the captured generation is read after the bump: the value the callback compares with is produced, in schedule, by or
 	// after the bumping instruction
@@ -580,6 +578,12 @@ func ruleTickGate(c *Ctx, r *R) {
 				}
 				if src == bumpAt || (bumpAt.Block().Dominates(src.Block()) && (bumpAt.Block() != src.Block() || idxIn(bumpAt) < idxIn(src))) {
 					captured = true
+				}
+				// `gen := t.gen + 1; t.gen = gen`: the bump stores the very value that is captured
+				if bst, isSt := bumpAt.(*ssa.Store); isSt {
+					if bv, ok := resolveVal(bst.Val).(ssa.Instruction); ok && bv == src {
+						captured = true
+					}
 				}
 			}
 		}
